@@ -8,6 +8,7 @@ import (
 	"mime/multipart"
 	"runtime"
 	"sort"
+	"strconv"
 	"strings"
 	"sync"
 	"time"
@@ -513,6 +514,33 @@ SecRule REQBODY_ERROR "@eq 1" "id:20,phase:2,pass,nolog"
 		{"JSON", "application/json", `{"a":"x"} trailing`, nil, true, "trailing garbage"},
 		{"XML", "text/xml", `<a b="attr"><c>text</c></a>`, nil, false, "xml"},
 		{"URLENCODED", "application/x-www-form-urlencoded", `a=1&a=2&A=3`, [][2]string{{"a", "1"}, {"a", "2"}, {"A", "3"}}, false, "repeated and mixed-case names"},
+	}
+	// multipart bodies announced by Content-Type headers whose parameters are written loosely or wrongly:
+	// the body is parsed (fields visible) or an error variable / interruption reports it - never silently skipped
+	{
+		mpRules := "SecRuleEngine On\nSecRequestBodyAccess On\nSecRule ARGS_POST \"@unconditionalMatch\" \"id:2,phase:2,pass,nolog\"\nSecRule REQBODY_ERROR|MULTIPART_STRICT_ERROR \"!@eq 0\" \"id:20,phase:2,pass,nolog\"\n"
+		w, err := coraza.NewWAF(coraza.NewWAFConfig().WithDirectives(mpRules))
+		if err != nil {
+			run.Inconclusive("multipart header rules rejected: %v", err)
+			return
+		}
+		body := "--X\r\nContent-Disposition: form-data; name=\"a\"\r\n\r\nv1\r\n--X--\r\n"
+		for _, ct := range []string{"multipart/form-data; boundary=X", "multipart/form-data;boundary=X", "Multipart/Form-Data; boundary=X", "multipart/form-data; boundary=\"X\"",
+			"multipart/form-data; boundary=X; charset", "multipart/form-data; boundary = X; x=\"", "multipart/form-data boundary=X", "multipart/form-data; boundary=X; boundary=X",
+			"multipart/form-data; charset=utf-8; boundary=X", "multipart/form-data", "multipart/form-data; boundary="} {
+			got, info, p := c03Run(w, "/p", nil, ct, []byte(body))
+			run.Eval("multipart-header:" + ct)
+			if p != "" {
+				run.Violate(vf.Violation{Signature: "vis:panic|multipart-header", What: "panic while processing a multipart body announced by Content-Type " + strconv.Quote(ct) + ": " + p, Replay: map[string]any{"content_type": ct, "body": body}})
+				continue
+			}
+			if !bagEq(bagOf([][2]string{{"a", "v1"}}), got[2]) && info == "" {
+				run.Violate(vf.Violation{Signature: "vis:dropped-silently|multipart-header", What: fmt.Sprintf("a multipart body announced by Content-Type %q: rules see ARGS_POST %s instead of {a=v1} and neither REQBODY_ERROR / MULTIPART_STRICT_ERROR nor an interruption reports that the body was not parsed", ct, got[2]),
+					Replay: map[string]any{"content_type": ct, "body": body, "directives": mpRules}})
+				break
+			}
+		}
+		closeAny(w)
 	}
 	for _, c := range cases {
 		w, err := coraza.NewWAF(coraza.NewWAFConfig().WithDirectives(fmt.Sprintf(rules, c.proc)))
